@@ -405,3 +405,4 @@ def check(ctx, rep):
     shared.own_namespace_lookups(ctx, rep, "C16.NS")
     shared.unused_params(ctx, rep, "C16.PARAM", ["spec_classes.spec_class", "spec_classes.utils.naming"])
     metarules.for_class_rule(ctx, rep, "C16.META", ("attrs",))
+    metarules.unmanaged_key_no_helpers(ctx, rep, "C16.SET")
